@@ -12,6 +12,10 @@
 //                                         m: iwjsreg_merge(reg, path, val)   r: iwjsreg_replace(reg, path, val)
 //                                         s: the typed entry point for a scalar val (iwjsreg_merge_str/_i64/_f64/_bool/_remove)
 //                                         -> rc=<enum> doc=<dump of the registry's root> links= dirty=<0|1> leak=<0|1>
+//   msub <doc> <path> <patch>             jbn_merge_patch_from_json on the node at <path> (a member of a larger tree); whole document dumped
+//   mdeep <n>                             a value nested n arrays deep (jbn_add_item) merged at /a into a heap {"x":1}: rc, members, leak
+//   reg <mB|..> ...                       second mode letter B: the registry file holds the binary form (IWJSREG_FORMAT_BINARY)
+//   merge <bj|bb> with a scalar <doc>     the scalar jbl is installed by jbl_merge_patch on an empty object (jbl_from_json takes containers)
 //   regs <doc> <steps>                    the same registry and SEVERAL calls: steps = JSON [["m"|"r", path, value?], ...]
 //                                         -> rcs=<rc,rc,...> doc= links= dirty= leak=
 //   idpatch <tn|ta> <doc> <patch>         jbn_patch / jbn_patch_auto with node IDENTITIES: every node of the document and of the patch
@@ -193,6 +197,16 @@ static iwrc free_visitor(int lvl, struct jbl_node *n) {
   return _jbn_allocated_destroy_visitor(lvl, n);
 }
 
+// frees a heap tree of any depth (jbn_visit2 stops at JBL_MAX_NESTING_LEVEL)
+static void free_deep(struct jbl_node *n) {
+  if (n->type == JBV_OBJECT || n->type == JBV_ARRAY) {
+    for (struct jbl_node *c = n->child, *next; c; c = next) { next = c->next; free_deep(c); }
+  }
+  if (n->key) free((void*) n->key);
+  if (n->type == JBV_STR) free((void*) n->vptr);
+  free(n);
+}
+
 static int leak_check(void) {
 #if HAVE_LSAN
   return __lsan_do_recoverable_leak_check() ? 1 : 0;
@@ -367,12 +381,20 @@ idone:
         }
       } else {
         struct jbl *jbl = 0;
-        rc = jbl_from_json(&jbl, (char*) doc);
-        if (rc) { printf("docparse=%s\n", rcname(rc)); goto mdone; }
+        if (doc[0] != '{' && doc[0] != '[') {   // a scalar document: jbl_from_json takes containers only; installed by a merge
+          rc = jbl_create_empty_object(&jbl);
+          if (!rc) rc = jbl_merge_patch(jbl, (char*) doc);
+        } else {
+          rc = jbl_from_json(&jbl, (char*) doc);
+        }
+        if (rc) { printf("docparse=%s\n", rcname(rc)); if (jbl) jbl_destroy(&jbl); goto mdone; }
         void *b0; size_t s0;
         jbl_as_buf(jbl, &b0, &s0);
         uint8_t *copy = malloc(s0 + 1);
         memcpy(copy, b0, s0);
+        int scalar_doc = doc[0] != '{' && doc[0] != '[';      // a scalar has no buffer to compare: its JSON text is compared
+        struct iwxstr *t0 = iwxstr_create_empty(), *t1 = iwxstr_create_empty();
+        if (scalar_doc) jbl_as_json(jbl, jbl_xstr_json_printer, t0, 0);
         if (mode[1] == 'j') {
           rc = jbl_merge_patch(jbl, (char*) pt);
         } else {
@@ -390,9 +412,14 @@ idone:
             jbl_as_buf(jbl, &b1, &s1);
             same = s1 == s0 && !memcmp(b1, copy, s0);
           }
+          if (scalar_doc) {
+            jbl_as_json(jbl, jbl_xstr_json_printer, t1, 0);
+            same = iwxstr_size(t0) == iwxstr_size(t1) && !memcmp(iwxstr_ptr(t0), iwxstr_ptr(t1), iwxstr_size(t0));
+          }
           printf(" unchanged=%d", same);
         }
         printf("\n");
+        iwxstr_destroy(t0); iwxstr_destroy(t1);
         free(copy);
         jbl_destroy(&jbl);
       }
@@ -430,6 +457,42 @@ mdone:
 qdone:
       iwpool_destroy(pool);
       free(doc); free(path); free(val);
+    } else if (!strcmp(tv[0], "msub") && n == 4) {
+      // jbn_merge_patch_from_json on the node at <path> of <doc> (a member of a larger tree): -> rc= doc=<the WHOLE document> links=
+      uint8_t *doc, *path, *pt;
+      unhex0(tv[1], &doc); unhex0(tv[2], &path); unhex0(tv[3], &pt);
+      struct iwpool *pool = iwpool_create(4096);
+      struct jbl_node *root = 0, *sub = 0;
+      iwrc rc = jbn_from_json((char*) doc, &root, pool);
+      if (rc) { printf("docparse=%s\n", rcname(rc)); goto subdone; }
+      rc = jbn_at(root, (char*) path, &sub);
+      if (rc || !sub) { printf("nopath=%s\n", rcname(rc)); goto subdone; }
+      rc = jbn_merge_patch_from_json(sub, (char*) pt, pool);
+      out_tree(rc, root, 0);
+      printf("\n");
+subdone:
+      iwpool_destroy(pool);
+      free(doc); free(path); free(pt);
+    } else if (!strcmp(tv[0], "mdeep") && n == 2) {
+      // a value nested <n> arrays deep (built with jbn_add_item) merged at /a into a heap-allocated {"x":1}: -> rc= doc= leak=
+      int depth = atoi(tv[1]);
+      struct iwpool *pool = iwpool_create_empty();
+      struct jbl_node *val = iwpool_calloc(sizeof(*val), pool), *p = val, *root = 0;
+      val->type = JBV_ARRAY;
+      for (int i = 1; i < depth; ++i) {
+        struct jbl_node *c = iwpool_calloc(sizeof(*c), pool);
+        c->type = JBV_ARRAY;
+        jbn_add_item(p, c);
+        p = c;
+      }
+      iwrc rc = jbn_from_json("{\"x\":1}", &root, 0);
+      if (rc) { printf("docparse=%s\n", rcname(rc)); iwpool_destroy(pool); continue; }
+      rc = jbn_merge_patch_path(root, "/a", val, 0);
+      printf("rc=%s members=%d", rc == JBL_ERROR_MAX_NESTING_LEVEL_EXCEEDED ? "nesting" : rcname(rc), jbn_length(root));
+      fflush(stdout);
+      free_deep(root);
+      iwpool_destroy(pool);
+      printf(" leak=%d\n", leak_check());
     } else if (!strcmp(tv[0], "reg") && n == 5) {
       const char *mode = tv[1];
       uint8_t *doc, *path, *val;
@@ -442,15 +505,23 @@ qdone:
       struct jbl_node *vn = 0;
       struct iwjsreg *reg = 0;
       iwrc rc = 0;
+      int binfmt = mode[1] == 'B';       // the registry file holds the binary form (IWJSREG_FORMAT_BINARY)
       FILE *f = fopen(fn, "w");
-      if (!f || fwrite(doc, 1, dl, f) != dl) { printf("tmpfile=failed\n"); if (f) fclose(f); goto rdone; }
+      if (binfmt) {
+        struct jbl *dj = 0; void *bb = 0; size_t bs = 0;
+        rc = jbl_from_json(&dj, (char*) doc);
+        if (rc) { printf("docparse=%s\n", rcname(rc)); if (f) fclose(f); goto rdone; }
+        jbl_as_buf(dj, &bb, &bs);
+        if (!f || fwrite(bb, 1, bs, f) != bs) { printf("tmpfile=failed\n"); if (f) fclose(f); jbl_destroy(&dj); goto rdone; }
+        jbl_destroy(&dj);
+      } else if (!f || fwrite(doc, 1, dl, f) != dl) { printf("tmpfile=failed\n"); if (f) fclose(f); goto rdone; }
       fclose(f);
       if (hasval) {
         rc = jbn_from_json((char*) val, &vn, pool);
         if (rc) { printf("patchparse=%s\n", rcname(rc)); goto rdone; }
       }
       {
-        struct iwjsreg_spec spec = { .path = fn, .flags = IWJSREG_READONLY };
+        struct iwjsreg_spec spec = { .path = fn, .flags = IWJSREG_READONLY | (binfmt ? IWJSREG_FORMAT_BINARY : 0) };
         rc = iwjsreg_open(&spec, &reg);
         if (rc) { printf("docparse=%s\n", rcname(rc)); reg = 0; goto rdone; }
       }
